@@ -181,4 +181,37 @@ def run(ctx):
                     # classify: which chip state makes them differ
                     ctx.report(["display_py_rs_differ"], "Python and Rust display buffers differ for the same VRAM (Rust ignores display-off and applies the start line, Python blanks a chip that is off and ignores the start line)", {"case": " ".join(ops[:k + 1]), "py_digest": po[k], "rs_digest": ro[k]})
                     break
+    # pixel map of the implementation, complete: every VRAM bit set alone on a blank display (Python display stitching)
+    pm, err = corr.run_exec("py", "pxmap", ["go"])
+    ctx.evaluations += 1
+    if len(pm) != 1 or " " not in pm[0]:
+        ctx.report(["py", "pixel_map", "probe_failed"], f"pxmap answered {str(pm)[:80]} {err[:80]}", {"case": "pxmap"})
+    else:
+        dims, body = pm[0].split(" ", 1)
+        ent = body.split(",")
+        ctx.traces += 1
+        ctx.count("pixel_map_bits", len(ent))
+        cover = {}
+        bad = None
+        for k, e in enumerate(ent):
+            chip, page, col, bit = k // 4096, (k // 512) % 8, (k // 8) % 64, k % 8
+            if e.startswith("?"):
+                bad = bad or ("one_vram_bit_changes_several_pixels", f"chip {chip} page {page} column {col} bit {bit} changes {e[1:]} pixels")
+            elif e != "-":
+                cover.setdefault(e, []).append((chip, page, col, bit))
+        for page_cells in range(0, len(ent), 8):
+            xs = {e.split(".")[0] for e in ent[page_cells:page_cells + 8] if e not in ("-",) and not e.startswith("?")}
+            if len(xs) > 1:
+                k = page_cells
+                bad = bad or ("data_write_touches_several_display_columns", f"chip {k // 4096} page {(k // 512) % 8} column {(k // 8) % 64}: its bits land in display columns {sorted(xs)}")
+        dup = [(px, bits) for px, bits in cover.items() if len(bits) > 1]
+        if dup:
+            bad = bad or ("pixel_driven_by_several_vram_bits", f"pixel {dup[0][0]} is driven by {dup[0][1][:3]}")
+        missing = [f"{x}.{y}" for y in range(32) for x in range(240) if f"{x}.{y}" not in cover]
+        if dims != "240x32" or missing:
+            bad = bad or ("visible_pixel_driven_by_no_vram_bit", f"display {dims}; {len(missing)} of 7680 pixels are driven by no VRAM bit, e.g. {missing[:4]}")
+        if bad:
+            ctx.report(["py", "pixel_map", bad[0]], "Python display stitching: " + bad[1], {"case": "pxmap", "detail": bad[1]})
+        else:
+            ctx.nontrivial.add("pxmap")
     ctx.samples = [{"case": lines[0][:400], "python": outs["py"][0][:300]}]
